@@ -110,6 +110,61 @@ Proof.
   - lia.
 Qed.
 
+(* the four forms of a valid encoding with the value they denote *)
+Lemma cp_ok_inv bs r : cp_ok (bs, r) ->
+  (exists c, bs = [c] /\ 0 <= c <= 127 /\ r = c) \/
+  (exists c c1, bs = [c; c1] /\ 194 <= c <= 223 /\ 128 <= c1 <= 191 /\ r = (c - 192) * 64 + (c1 - 128)) \/
+  (exists c c1 c2, bs = [c; c1; c2] /\ 224 <= c <= 239 /\ 128 <= c1 <= 191 /\ 128 <= c2 <= 191 /\
+                   r = (c - 224) * 4096 + (c1 - 128) * 64 + (c2 - 128)) \/
+  (exists c c1 c2 c3, bs = [c; c1; c2; c3] /\ 240 <= c <= 244 /\ 128 <= c1 <= 191 /\ 128 <= c2 <= 191 /\
+                      128 <= c3 <= 191 /\ 65536 <= r).
+Proof.
+  unfold cp_ok. cbn [fst snd]. unfold utf8_decode.
+  destruct bs as [|c t]; [discriminate|].
+  destruct ((0 <=? c) && (c <=? 127)) eqn:C0.
+  { intros H. left. exists c. some_pair H Hr Hl. b2p.
+    rewrite len_cons in Hl. assert (t = []) by (apply len_zero_nil; lia). subst t. repeat split; lia. }
+  destruct t as [|c1 t1]; [discriminate|].
+  destruct ((194 <=? c) && (c <=? 223) && cont c1) eqn:C1.
+  { intros H. right. left. exists c, c1. some_pair H Hr Hl. b2p.
+    rewrite !len_cons in Hl. assert (t1 = []) by (apply len_zero_nil; lia). subst t1.
+    pose proof (cont_range c1 ltac:(assumption)). repeat split; lia. }
+  destruct t1 as [|c2 t2]; [discriminate|].
+  match goal with |- (if ?b then _ else _) = _ -> _ => destruct b eqn:C2 end.
+  { intros H. right. right. left. exists c, c1, c2. some_pair H Hr Hl. b2p.
+    rewrite !len_cons in Hl. assert (t2 = []) by (apply len_zero_nil; lia). subst t2.
+    pose proof (cont_range c1 ltac:(assumption)). pose proof (cont_range c2 ltac:(assumption)).
+    repeat split; lia. }
+  destruct t2 as [|c3 t3]; [discriminate|].
+  match goal with |- (if ?b then _ else _) = _ -> _ => destruct b eqn:C3 end; [|discriminate].
+  intros H. right. right. right. exists c, c1, c2, c3. some_pair H Hr Hl. b2p.
+  rewrite !len_cons in Hl. assert (t3 = []) by (apply len_zero_nil; lia). subst t3.
+  pose proof (cont_range c1 ltac:(assumption)). pose proof (cont_range c2 ltac:(assumption)).
+  pose proof (cont_range c3 ltac:(assumption)).
+  split; [reflexivity|]. split; [lia|]. split; [lia|]. split; [lia|]. split; [lia|].
+  destruct (Z.eq_dec c 240) as [E|E].
+  - subst c. match goal with H : (240 =? 240) && (c1 <? 144) = false |- _ =>
+      apply andb_false_iff in H; destruct H as [H|H]; b2p; lia end.
+  - lia.
+Qed.
+
+(* U+2028 and U+2029 have exactly one encoding, and E2 80 xx decodes to U+2000 + (xx - 0x80) *)
+Lemma cp_ok_lsps bs r : cp_ok (bs, r) -> r = 8232 \/ r = 8233 -> bs = [226; 128; r - 8064].
+Proof.
+  intros H Hr.
+  destruct (cp_ok_inv bs r H) as [(c & -> & ? & ?)|[(c & c1 & -> & ? & ? & ?)|[(c & c1 & c2 & -> & ? & ? & ? & E)|(c & c1 & c2 & c3 & -> & ? & ? & ? & ? & ?)]]]; try lia.
+  assert (c = 226 /\ c1 = 128) by lia. destruct H3 as [-> ->]. f_equal. f_equal. f_equal. lia.
+Qed.
+
+Lemma cp_ok_e2_80 c2 t r : cp_ok (226 :: 128 :: c2 :: t, r) -> t = [] /\ r = 8064 + c2.
+Proof.
+  intros H.
+  destruct (cp_ok_inv _ r H) as [(c & E & ? & ?)|[(c & c1 & E & ? & ? & ?)|[(c & c1 & c2' & E & ? & ? & ? & Er)|(c & c1 & c2' & c3 & E & ? & ? & ? & ? & ?)]]];
+    try discriminate.
+  - injection E as <- <- <- ->. split; [reflexivity|lia].
+  - injection E as <- <- <- ?. lia.
+Qed.
+
 (* the decoder only looks at the bytes of the first code point *)
 Lemma utf8_decode_prefix bs r X : cp_ok (bs, r) -> utf8_decode (bs ++ X) = Some (r, len bs).
 Proof.
